@@ -40,6 +40,7 @@ from cnfgen.formula.cnfio import guess_output_format
 from cnfgen.clitools.cmdline import paginate_or_redirect_stdout
 from cnfgen.clitools.cmdline import setup_SIGINT
 from cnfgen.clitools.cmdline import SeedAction
+from cnfgen.clitools.cmdline import comment_marker_from_command_line
 from cnfgen.clitools.cmdline import CLIParser, CLIError, CLIHelpFormatter
 
 from cnfgen.clitools.cmdline import get_formula_helpers
@@ -477,7 +478,7 @@ def cli(argv=None, mode='output'):
     # Be lenient on non string arguments
     argv = [str(x) for x in argv]
 
-    with msg_prefix('c '):
+    with msg_prefix(comment_marker_from_command_line(argv[1:], 'dimacs')):
         args, t_args = parse_command_line(argv, parser, t_parser)
 
     #  Determine output format
